@@ -111,7 +111,7 @@ def messages(tier, seed):
     rng = random.Random(seed * 17 + 9)
     g = gen_hist.Gen(rng)
     state = TJ.canon(g.ro(4))
-    for k in range(300 if tier == 'quick' else 3000):
+    for k in range(300 if tier == 'quick' else 30000):
         cls, msg = gen_hist.random_message(g, state, 100 + k)
         text = TJ.to_text(pretty(msg) if k % 2 else msg)
         out.append((f'random {cls} #{k}', text))
